@@ -841,13 +841,15 @@ func ruleResolveBeforeCompare(c *Ctx) {
 		c.Unknown("c14.resolve-before-compare", "(*Query).exec", c.P.Pos(exec.Pos()), "anchor lost: no loop over query.from")
 		return
 	}
-	paths, err := scan.after(WalkCfg{MaxVisits: 1, MaxPaths: 6000})
+	// (two visits per block: a path runs one post-processor and still reaches the return)
+	paths, err := scan.after(WalkCfg{MaxVisits: 2, MaxPaths: 20000})
 	if err != nil {
 		c.Unknown("c14.resolve-before-compare", "(*Query).exec", c.P.Pos(exec.Pos()), err.Error())
 		return
 	}
 	var why []string
 	nActive, nIdle := 0, 0
+	postTwice := false
 	for _, p := range paths {
 		if p.Exit != "return" || len(p.Ret) != 2 || !p.Ret[1].Nil {
 			continue
@@ -872,6 +874,23 @@ func ruleResolveBeforeCompare(c *Ctx) {
 		}
 		if waited {
 			nActive++
+			// the post-processors run here run once: the list is emptied before exec hands over to the caller, whose own
+			// run would otherwise evaluate an AWAITed call a second time
+			ran, drained := false, false
+			for _, e := range p.Effects[iSel:] {
+				if e.Kind == "call" && e.Callee == "dyn" && len(e.Args) > 0 && strings.Contains(e.Args[0].String(), "postProcessors") {
+					ran = true
+				}
+				if e.Kind == "store" && ran && len(e.Args) == 2 && e.Args[0].Op == "field" && e.Args[0].Name == "postProcessors" {
+					v := e.Args[1]
+					if v.Op == "const" && v.Name == "nil" || isFreshSliceTerm(v) || v.Op == "slice" && len(v.Args) == 4 && v.Args[2].String() == "c:0" {
+						drained = true
+					}
+				}
+			}
+			if ran && !drained {
+				postTwice = true
+			}
 			continue
 		}
 		// not awaited: the path must have established that neither stage is active
@@ -898,4 +917,5 @@ func ruleResolveBeforeCompare(c *Ctx) {
 		why = append(why, "no success path awaits the outstanding calls before duplicate elimination / ordering")
 	}
 	c.Check(len(why) == 0, "c14.resolve-before-compare", "(*Query).exec", c.P.Pos(exec.Pos()), fmt.Sprintf("%d paths await and resolve first, %d paths have both stages idle", nActive, nIdle), strings.Join(uniq(why), "; "))
+	c.Check(!postTwice, "c14.resolve-before-compare", "(*Query).exec/run-once", c.P.Pos(exec.Pos()), "the post-processors run ahead of DISTINCT / ORDER BY are removed from the list before exec returns", "the post-processors that exec runs ahead of DISTINCT / ORDER BY stay on the list: the caller runs them again, and the one AWAIT registers evaluates its ASYNC call a second time (2N invocations for N rows)")
 }
